@@ -245,6 +245,15 @@ Definition paged (o : obj) : bool :=
   | _ => false
   end.
 
+(* the objects the round-trip property speaks about: exception responses for a function code
+   1..127, diagnostic data fields that are whole 16-bit words *)
+Definition rt_domain (o : obj) : bool :=
+  match o with
+  | OExc orig fc _ => (1 <=? orig) && (orig <? 128) && (fc =? orig + 128)
+  | ODiag _ _ m => match dmsg_words m with Some _ => true | None => false end
+  | _ => true
+  end.
+
 (* round trip: case = (server?, o, pdu(o), pdu(o) again on the same object,
                        decode of the first pdu, pdu of the decoded object, decode of that) *)
 Definition chk_rt (c : bool * obj * res bytes * res bytes * res obj * res bytes * res obj) : bool * bool :=
@@ -262,7 +271,7 @@ Definition chk_rt (c : bool * obj * res bytes * res bytes * res obj * res bytes 
    end,
    match e1 with
    | Ok b =>
-       if paged o then true else
+       if paged o || negb (rt_domain o) then true else
        rbytes_eqb e2 e1 &&                                         (* encode is pure *)
        match d1 with
        | Ok o' => obj_match o o' &&                                (* decode . encode = id *)
@@ -295,17 +304,21 @@ Fixpoint run_hist (o : obj) (ops : list hop) : list hout :=
       HOEnc r :: match r with Ok _ => run_hist o' t | Raise _ => [] end
   | HDec b :: t =>
       let r := decode_into o b in
-      HODec r (decode_into (fresh (class_of o)) b) :: match r with Ok o' => run_hist o' t | Raise _ => [] end
+      HODec r (decode_into (fresh_like o) b) :: match r with Ok o' => run_hist o' t | Raise _ => [] end
   end.
 
 (* property on the observed outputs alone: two encodes with no decode in between give the same
    bytes; decode into a used object leaves exactly what decode into a new instance leaves *)
+(* space_left is encode()'s scratch variable, not a field of the message *)
+Definition blank (o : obj) : obj :=
+  match o with OMeiRsp a b c d e f i _ => OMeiRsp a b c d e f i None | _ => o end.
+
 Fixpoint prop_hist (prev : option bytes) (outs : list hout) : bool :=
   match outs with
   | [] => true
   | HOEnc (Ok b) :: t => match prev with Some p => bytes_eqb p b | None => true end && prop_hist (Some b) t
   | HOEnc (Raise _) :: _ => match prev with Some _ => false | None => true end
-  | HODec (Ok o) (Ok f) :: t => obj_eqb o f && prop_hist None t
+  | HODec (Ok o) (Ok f) :: t => obj_eqb (blank o) (blank f) && prop_hist None t
   | HODec (Raise _) (Raise _) :: _ => true
   | HODec _ _ :: _ => false
   end.
